@@ -539,7 +539,8 @@ def judge_dir(ctx, drv, files, root, out_dir, cleanup="full"):
                 break
         if dsql is None and sq["schema"] != ["label", "program", "taxon"]:
             dsql = f"sqlite schema {sq['schema']}"
-    if d is None and dsql is None:
+    if d is None and dsql is None and (ctx.tier != "quick" or ctx.cov.get("db_json_texts_identical", 0) < 40):
+        # (quick tier: the first 40 agreeing directories only — the driver's makeDb + text costs ~0.25 s per directory)
         # X3: the text of the MODEL's database, getJsonText (dbToJson (makeDb …)), byte for byte against get_json()
         # (key orders included, which the dictionary comparison above does not see); C11_db_json_roundtrip is about it.
         mj = drv.call("c11.db_json", progs=progs)
@@ -554,6 +555,7 @@ def judge_dir(ctx, drv, files, root, out_dir, cleanup="full"):
                     "what": "db-json: get_json() text differs from getJsonText (dbToJson (makeDb …)) although the "
                             f"dictionaries agree (key order / dbToJson): {text_diff(res['json_text'], mjt)}"}
         ctx.cov["db_json_texts_identical"] = ctx.cov.get("db_json_texts_identical", 0) + 1
+    if d is None and dsql is None:
         nontrivial = any(v for v in mobj["importations"].values())
         return {"kind": "ok", "nontrivial": nontrivial, "progs": progs, "model": mobj, "res": res}
     # disagreement: ask the specification
@@ -1170,7 +1172,7 @@ def stream_jsontext(ctx, drv):
     quick = ctx.tier == "quick"
     rng = ctx.rng
     # (1) the real get_json on adversarial data of the database shape, byte for byte against the model
-    for i in range(150 if quick else 3000):
+    for i in range(80 if quick else 3000):
         db = fake_db(rand_data(rng))
         text = db.get_json()
         data = get_json_data(db)
@@ -1199,7 +1201,7 @@ def stream_jsontext(ctx, drv):
                                        "signature": None})
             break
     # (2) json.dumps(v, indent=2) against dumps2 on random values of the shape (any nesting)
-    for i in range(300 if quick else 6000):
+    for i in range(150 if quick else 6000):
         val = rand_value(rng, rng.choice([1, 2, 3, 4]))
         impl = json.dumps(val, indent=2)
         m = drv.call("c11.dumps", v=enc(val))
@@ -1223,7 +1225,7 @@ def stream_jsontext(ctx, drv):
     pat, rep = the_regex()
     frags = [x for x in LOOKALIKE if "１" not in x] + ['"', "\\", "\\\"", "\n", " ", "  ", "[", "]", ",", "1", "23", "[\n", "\n]", ",\n", "]\n", "],\n", "] ", "{", "}", ":",
                          '"k": ', "[]", "{}", "\x0c", "\x1c", "\xa0", " ", "a", "é", "\\u00e9", "\\ud83d\\ude00", "\\ud83d", "01", "\t", "\r"]
-    for i in range(600 if quick else 12000):
+    for i in range(300 if quick else 12000):
         if i % 3 == 0:
             base = json.dumps(rand_value(rng, 3), indent=2) + "\n"
             k = rng.randrange(len(base) + 1)
